@@ -66,6 +66,8 @@ pub struct IoState {
     pub write_mode: WriteMode,
     pub shutdown_never: bool,
     pub shutdown_calls: u32,
+    /// stamp of the first poll_shutdown call
+    pub shutdown_first_stamp: Option<u64>,
     pub shutdown_done: bool,
     pub flush_calls: u32,
     pub read_calls: u32,
@@ -97,6 +99,7 @@ impl IoState {
             write_mode: WriteMode::Normal,
             shutdown_never: false,
             shutdown_calls: 0,
+            shutdown_first_stamp: None,
             shutdown_done: false,
             flush_calls: 0,
             read_calls: 0,
@@ -363,6 +366,9 @@ impl AsyncWrite for ScriptIo {
     fn poll_shutdown(self: Pin<&mut Self>, cx: &mut Context<'_>) -> Poll<io::Result<()>> {
         let mut s = self.0.borrow_mut();
         s.shutdown_calls += 1;
+        if s.shutdown_first_stamp.is_none() {
+            s.shutdown_first_stamp = Some(s.stamp);
+        }
         if s.reset {
             return Poll::Ready(Err(io::ErrorKind::BrokenPipe.into()));
         }
